@@ -106,11 +106,8 @@ enc_feed(jose_io_t *io, const void *in, size_t len)
     io_t *i = containerof(io, io_t, io);
     int l = 0;
 
-    uint8_t *pt = NULL;
-    size_t ptlen = 0;
-
-    if (!handle_zip_enc(i->json, in, len, (void**)&pt, &ptlen))
-        return false;
+    const uint8_t *pt = in;
+    size_t ptlen = len;
 
     for (size_t j = 0; j < ptlen; j++) {
         uint8_t ct[EVP_CIPHER_CTX_block_size(i->cctx) + 1];
